@@ -110,17 +110,18 @@ const (
 
 // Op is one generated operation.
 type Op struct {
-	K    OpKind      `json:"op"`
-	Key  int         `json:"key,omitempty"`
-	Val  int64       `json:"val,omitempty"`
-	D    int64       `json:"d,omitempty"`    // TTL argument / advance amount / new default
-	Fn   FnKind      `json:"fn,omitempty"`   // Compute function
-	Stop int         `json:"stop,omitempty"` // Range: stop after this many visits (0 = never)
-	Vis  VisitorKind `json:"vis,omitempty"`
-	N    int         `json:"n,omitempty"`    // bulk count / callback kind
-	Park bool        `json:"park,omitempty"` // park (stall) inside the user function
-	Slow bool        `json:"slow,omitempty"` // slow user function: frozen inside it until nobody else can move
-	Adv  int64       `json:"adv,omitempty"`  // the user function takes this long: the clock moves while it runs (sequential scenarios without a janitor)
+	K     OpKind      `json:"op"`
+	Key   int         `json:"key,omitempty"`
+	Val   int64       `json:"val,omitempty"`
+	D     int64       `json:"d,omitempty"`    // TTL argument / advance amount / new default
+	Fn    FnKind      `json:"fn,omitempty"`   // Compute function
+	Stop  int         `json:"stop,omitempty"` // Range: stop after this many visits (0 = never)
+	Vis   VisitorKind `json:"vis,omitempty"`
+	N     int         `json:"n,omitempty"`     // bulk count / callback kind
+	Park  bool        `json:"park,omitempty"`  // park (stall) inside the user function
+	Slow  bool        `json:"slow,omitempty"`  // slow user function: frozen inside it until nobody else can move
+	Other int         `json:"other,omitempty"` // the user function stores this many fresh keys into a second container (C13: calls into ANOTHER container are within the guarantee)
+	Adv   int64       `json:"adv,omitempty"`   // the user function takes this long: the clock moves while it runs (sequential scenarios without a janitor)
 }
 
 func (o Op) String() string {
@@ -213,8 +214,11 @@ func (r *Rec) String() string {
 
 // World is the execution context shared by the tasks of one run.
 type World struct {
-	rearms    int  // re-arming callback invocations (CBKind 5)
-	swapCB    bool // re-entrant callbacks and visitors may also call SetEvictedCallback (C13 only: no ledger is kept)
+	rearms    int    // re-arming callback invocations (CBKind 5)
+	swapCB    bool   // re-entrant callbacks and visitors may also call SetEvictedCallback (C13 only: no ledger is kept)
+	otherM    MapAPI // second container of the same kind (C13)
+	otherC    CacheAPI
+	otherSeq  int
 	sim       *simrt.Sim
 	m         MapAPI
 	c         CacheAPI
@@ -284,6 +288,20 @@ func (w *World) end(r *Rec) {
 	r.Pending = false
 }
 
+// touchOther: a user function that writes to another container of the same
+// kind (fresh keys, enough to make that container grow).
+func (w *World) touchOther(n int) {
+	for i := 0; i < n; i++ {
+		w.otherSeq++
+		k := 9000 + w.otherSeq
+		if w.otherM != nil {
+			w.otherM.Store(k, int64(k))
+		} else if w.otherC != nil {
+			w.otherC.Set(k, int64(k), sentinelNoExp)
+		}
+	}
+}
+
 // userFn builds the Compute function for an op; it records what it observed.
 func (w *World) userFn(r *Rec) func(old int64, loaded bool) (int64, bool) {
 	return func(old int64, loaded bool) (int64, bool) {
@@ -295,6 +313,9 @@ func (w *World) userFn(r *Rec) func(old int64, loaded bool) (int64, bool) {
 		}
 		if r.Op.Slow {
 			simrt.ParkResumable()
+		}
+		if r.Op.Other > 0 {
+			w.touchOther(r.Op.Other)
 		}
 		if r.Op.Adv > 0 && w.sim != nil && w.sim.BackgroundTasks() == 0 {
 			w.sim.Advance(r.Op.Adv, false, 0)
@@ -336,6 +357,9 @@ func (w *World) valueFn(r *Rec) func() int64 {
 		}
 		if r.Op.Slow {
 			simrt.ParkResumable()
+		}
+		if r.Op.Other > 0 {
+			w.touchOther(r.Op.Other)
 		}
 		if r.Op.Adv > 0 && w.sim != nil && w.sim.BackgroundTasks() == 0 {
 			w.sim.Advance(r.Op.Adv, false, 0)
